@@ -110,7 +110,7 @@ def t3_realfloat_foreign_operands(ctx: Ctx):
         ctx.check(ok, REALS, last.pattern if last is not None else fn, f'RealFloat.{op}', f'{op}: an unknown operand type returns NotImplemented (so `RealFloat {"*" if op == "__mul__" else "+"} Float` reaches Float\'s reflected method)',
                   'raises TypeError itself: mixing RealFloat (left) with Float (right) fails although the reverse order works')
     sub = meths.get('__sub__')
-    ctx.check(sub is not None and norm(sub.body[-1]) == 'return self + -other', REALS, sub, 'RealFloat.__sub__', '__sub__ is addition of the negation', f'got {norm(sub.body[-1]) if sub else None}')
+    ctx.check(sub is not None, REALS, sub, 'RealFloat.__sub__', '__sub__ is defined (what it adds is decided in S1)', 'missing')
     for r, want in (('__radd__', 'return self + other'), ('__rmul__', 'return self * other'), ('__rsub__', 'return -self + other')):
         f = meths.get(r)
         ctx.check(f is not None and norm(f.body[-1]) == want, REALS, f, f'RealFloat.{r}', f'{r}: {want[7:]}', f'got {norm(f.body[-1]) if f else None}')
@@ -152,6 +152,29 @@ def s1_unary_sign(ctx: Ctx):
             copies = dotted(kwarg(c, 'x')) == 'self'
             ctx.check(got == role and copies, rel, rets[0], q, f'sign {role}, magnitude copied from self',
                       f'source builds {norm(c)}: the sign is {got}' + ('' if copies else ' and the value is not copied from self'))
+    # x - y is x + (-y) with the *IEEE* negation of y: a native zero (the int 0, Fraction(0)) stands for +0, and Python's
+    # `-0` is that same unsigned zero, so it has to be turned into -0 by hand -- (-0) - 0 is -0, as (-0) - 0.0 is.
+    # `__sub__` of both classes is evaluated, from its source, on each kind of right operand.
+    from fractions import Fraction
+
+    from ..minipy import Interp, Obj
+    for rel, cls in ((REALS, 'RealFloat'), (FLOATS, 'Float')):
+        meths = {s_.name: s_ for s_ in ctx.repo.cls(rel, cls).body if isinstance(s_, ast.FunctionDef)
+                 and not any(dotted(d_) in ('overload', 'typing.overload') for d_ in s_.decorator_list)}
+        fn = meths.get('__sub__')
+        if fn is None:
+            raise ShapeError(f'{cls}.__sub__ not found')
+        for what, operand, want in (('the int 0', 0, ('zero', True)), ('Fraction(0)', Fraction(0), ('zero', True)), ('the int 3', 3, -3), ('Fraction(1, 3)', Fraction(1, 3), Fraction(-1, 3)),
+                                    ('a number of its own class', 'same', 'negated')):
+            added: list = []
+            me = Obj(cls, add=lambda a, b: added.append(b) or 'sum')
+            marker = Obj(cls, neg=lambda a: 'negated')
+            it = Interp({}, meths, self_obj=me, globals_={'Fraction': Fraction}, is_a=lambda k, c: k == c,
+                        overrides={cls: lambda s=False, c=0, exp=0, **k: ('zero', bool(s)) if c == 0 else ('num', s, c, exp)})
+            it.call_function(fn, [marker if operand == 'same' else operand], bound_self=True)
+            got = added[0] if added else None
+            ctx.check(len(added) == 1 and got == want, rel, fn, f'{cls}.__sub__', f'x - {what} adds {"-0" if want == ("zero", True) else want} to x',
+                      f'adds {got!r}: (-0) - 0 gives +0 although (-0) - 0.0 and (-0) - {cls}(+0) give -0')
 
 
 # ----------------------------------------------------------------------
@@ -226,7 +249,7 @@ def t1_float_specials(ctx: Ctx):
                 and call_name(c.body[0].value) == conv and [dotted(a) for a in c.body[0].value.args] == ['other']  # type: ignore
             ctx.check(good, FLOATS, c.pattern if c else fn, f'Float.{op}', f'{kindname} operand converted by {conv} (exact)', 'coercion changed')
     # subtraction is addition of the negation
-    for m, want in (('__sub__', 'self + -other'), ('__rsub__', '-self + other'), ('__radd__', 'self + other'), ('__rmul__', 'self * other')):
+    for m, want in (('__rsub__', '-self + other'), ('__radd__', 'self + other'), ('__rmul__', 'self * other')):     # (__sub__: decided in S1, on every kind of operand)
         fn = ctx.fn(FLOATS, f'Float.{m}')
         rets = [s for s in walk_no_nested(fn) if isinstance(s, ast.Return)]
         ctx.check(len(rets) == 1 and norm(rets[0].value) == want, FLOATS, fn, f'Float.{m}', want, f'got {norm(rets[0].value) if rets else None}')
@@ -580,6 +603,9 @@ RULES = [
 from ..selftest import Mutant  # noqa: E402
 
 MUTANTS = [
+    Mutant('float-minus-native-zero-adds-plus-zero', FLOATS, "        if isinstance(other, (int, Fraction)) and other == 0:\n            # a native zero stands for +0 and has no sign to flip:\n            # `x - 0` is `x + (-0)`, so `(-0) - 0` is `-0` as for a float zero\n            return self + Float(s=True, c=0, exp=0)\n", "", 'C05.S1',
+           'finding F133 before its repair: Float(-0) - 0 is +0'),
+    Mutant('realfloat-minus-native-zero-adds-plus-zero', REALS, "            return self + RealFloat(s=True, c=0, exp=0)\n", "            return self + RealFloat(s=False, c=0, exp=0)\n", 'C05.S1'),
     Mutant('power-of-two-by-log2', 'fpy2/utils/bits.py', "    return (k & (k - 1)) == 0", "    import math\n    return k != 0 and math.log2(k).is_integer()", 'C05.X1',
            'seeded change C05e: RealFloat(1) + Fraction(1, 2**60 + 1) is computed as if the fraction were dyadic'),
     Mutant('dyadic-test-by-float-division', 'fpy2/utils/bits.py', "    return (k & (k - 1)) == 0", "    return k > 0 and (2 ** k.bit_length() / k) in (1.0, 2.0)", 'C05.X1'),
